@@ -8,8 +8,15 @@
 //	(b) performs a real TLS 1.3 handshake and HTTP/websocket request against the real rest.NewServer(..)
 //	    (real router and middleware) whose provider.Client is a recorder,
 //
-// and writes one ndjson line per case: the case as given, what was decided, and the ids the back end received,
-// projected onto the spec's vocabulary. TLC judges those lines (GatewayAuthTrace.tla).
+// and writes one ndjson line per request: the case as given, what was decided, and the ids the back end
+// received, projected onto the spec's vocabulary. TLC judges those lines (GatewayAuthTrace.tla).
+//
+// Input line kinds:
+//
+//	case    one certificate, one registry, one request, a gateway of its own (deterministic replay)
+//	resume  a first connection that obtains a TLS session ticket, a registry change, a second connection
+//	session free-running direction: one client (certificate, registry) sending a sequence of requests over
+//	        keep-alive connections while all other sessions hammer the SAME gateway concurrently
 package gatewayh
 
 import (
@@ -43,8 +50,9 @@ import (
 	"verif/harness/vcommon"
 )
 
-// Out is one recorded line.
+// Out is one recorded line (kind "case": also used for every request of a session).
 type Out struct {
+	Kind string          `json:"kind"`
 	I    int             `json:"i"`
 	Cert json.RawMessage `json:"cert"`
 	Reg  json.RawMessage `json:"reg"`
@@ -55,21 +63,96 @@ type Out struct {
 	Status int    `json:"status"` // HTTP status (0 if none)
 	Served []Call `json:"served"` // lease/deployment scoped calls that reached the back end, in order
 
-	VpcErr string `json:"vpcErr"` // informational
-	TlsErr string `json:"tlsErr"` // informational: the server's own handshake error line
-	URL    string `json:"url"`    // informational
-	Err    string `json:"err,omitempty"`
+	// kind "resume" only
+	Change  string `json:"change,omitempty"`
+	Present string `json:"present,omitempty"`
+	Tls0    *bool  `json:"tls0,omitempty"`    // first connection accepted
+	Resumed *bool  `json:"resumed,omitempty"` // second connection was a TLS session resumption
+
+	Session int    `json:"session,omitempty"` // informational
+	VpcErr  string `json:"vpcErr"`            // informational
+	TlsErr  string `json:"tlsErr"`            // informational: the server's own handshake error line
+	URL     string `json:"url"`               // informational
+	Err     string `json:"err,omitempty"`
 }
 
-// lineSink receives the http.Server error log ("http: TLS handshake error from ...: <reason>").
-type lineSink struct{ ch chan string }
+// In is one input line.
+type In struct {
+	Kind string `json:"kind"`
+	I    int    `json:"i"`
+	Cert Cert             `json:"cert"`
+	Reg  map[string]Entry `json:"reg"`
+	Path Path             `json:"path"`
+	// resume
+	Change  string `json:"change"`
+	Present string `json:"present"`
+	// session
+	Paths []Path `json:"paths"`
+}
 
-func (s *lineSink) Write(p []byte) (int, error) {
-	select {
-	case s.ch <- string(p):
-	default:
+type rawIn struct {
+	Kind  string            `json:"kind"`
+	I     int               `json:"i"`
+	Cert  json.RawMessage   `json:"cert"`
+	Reg   json.RawMessage   `json:"reg"`
+	Path  json.RawMessage   `json:"path"`
+	Paths []json.RawMessage `json:"paths"`
+}
+
+var (
+	noCertJSON      = json.RawMessage(`{"cn":"-","issuer":"-","serial":"-","key":"-","window":"-","usage":"-","chainLen":0,"der":"none","holds":false}`)
+	emptyRegJSON    = json.RawMessage(`{"X/s1":{"state":"none","key":"-","window":"-","usage":"-"},"X/s2":{"state":"none","key":"-","window":"-","usage":"-"},"Y/s1":{"state":"none","key":"-","window":"-","usage":"-"}}`)
+	defaultPathJSON = json.RawMessage(`{"route":"lstatus","dseq":"own","gseq":"own","oseq":"own","extra":"none"}`)
+)
+
+// hsErrors receives the http.Server error log ("http: TLS handshake error from ADDR: <reason>") and hands each
+// reason to whoever dialled from ADDR.
+type hsErrors struct {
+	mu     sync.Mutex
+	byAddr map[string]string
+	signal chan struct{}
+}
+
+func newHsErrors() *hsErrors { return &hsErrors{byAddr: map[string]string{}, signal: make(chan struct{})} }
+
+func (h *hsErrors) Write(p []byte) (int, error) {
+	l := string(p)
+	const marker = "TLS handshake error from "
+	if i := strings.Index(l, marker); i >= 0 {
+		l = l[i+len(marker):]
+		if j := strings.Index(l, ": "); j >= 0 {
+			addr, reason := l[:j], strings.TrimSpace(l[j+2:])
+			h.mu.Lock()
+			h.byAddr[addr] = reason
+			close(h.signal)
+			h.signal = make(chan struct{})
+			h.mu.Unlock()
+		}
 	}
 	return len(p), nil
+}
+
+// wait returns the server's own account of why it refused the connection dialled from addr.
+func (h *hsErrors) wait(addr string, d time.Duration) (string, bool) {
+	t := time.NewTimer(d)
+	defer t.Stop()
+	for {
+		h.mu.Lock()
+		r, ok := h.byAddr[addr]
+		if ok {
+			delete(h.byAddr, addr)
+		}
+		sig := h.signal
+		h.mu.Unlock()
+		if ok {
+			return r, true
+		}
+		select {
+		case <-sig:
+		case <-t.C:
+			return "", false
+		}
+	}
 }
 
 type gateway struct {
@@ -78,11 +161,11 @@ type gateway struct {
 	addr     string
 	back     *backend
 	provider sdk.AccAddress
-	errs     *lineSink
+	errs     *hsErrors
 }
 
 func newGateway(ch *chain, n int) (*gateway, error) {
-	g := &gateway{back: &backend{}, errs: &lineSink{ch: make(chan string, 64)}}
+	g := &gateway{back: newBackend(), errs: newHsErrors()}
 	g.provider = sdk.AccAddress(derive(int64(n), 0, "provider")[:20])
 
 	// the provider's own server certificate (clients here do not verify it; the property is about the other side)
@@ -113,126 +196,80 @@ func newGateway(ch *chain, n int) (*gateway, error) {
 
 func (g *gateway) close() { _ = g.srv.Close() }
 
-func (g *gateway) drain() {
-	for {
-		select {
-		case <-g.errs.ch:
-		default:
-			return
-		}
-	}
+// client is one TLS client identity talking to one gateway.
+type client struct {
+	g    *gateway
+	cfg  *tls.Config
+	tr   *http.Transport
+	mu   sync.Mutex
+	last string // local address of the most recently dialled connection
 }
 
-// handshakeError waits for the server's own account of why it refused the connection.
-func (g *gateway) handshakeError(d time.Duration) (string, bool) {
-	t := time.NewTimer(d)
-	defer t.Stop()
-	for {
-		select {
-		case l := <-g.errs.ch:
-			if strings.Contains(l, "TLS handshake error") {
-				if i := strings.Index(l, "TLS handshake error from "); i >= 0 {
-					l = l[i+len("TLS handshake error from "):]
-					if j := strings.Index(l, ": "); j >= 0 {
-						l = l[j+2:]
-					}
-				}
-				return strings.TrimSpace(l), true
-			}
-		case <-t.C:
-			return "", false
-		}
-	}
-}
-
-func (g *gateway) runCase(ch *chain, seed int64, idx int, raw json.RawMessage) (out Out) {
-	out = Out{I: idx, Served: []Call{}}
-	var probe struct {
-		Cert json.RawMessage `json:"cert"`
-		Reg  json.RawMessage `json:"reg"`
-		Path json.RawMessage `json:"path"`
-	}
-	var cs Case
-	if err := json.Unmarshal(raw, &probe); err != nil {
-		out.Err = "bad case: " + err.Error()
-		return
-	}
-	out.Cert, out.Reg, out.Path = probe.Cert, probe.Reg, probe.Path
-	dec := json.NewDecoder(bytes.NewReader(raw))
-	dec.DisallowUnknownFields()
-	if err := dec.Decode(&cs); err != nil {
-		out.Err = "bad case: " + err.Error()
-		return
-	}
-	w, err := newWorld(seed, idx)
-	if err != nil {
-		out.Err = err.Error()
-		return
-	}
-	if err = w.publish(ch, cs.Reg); err != nil {
-		out.Err = err.Error()
-		return
-	}
-	chain, priv, err := w.present(cs.Cert)
-	if err != nil {
-		out.Err = err.Error()
-		return
-	}
-	req, err := w.request(cs.Path, g.provider)
-	if err != nil {
-		out.Err = err.Error()
-		return
-	}
-	out.URL = req.method + " " + req.path
-
-	// (a) the verification callback, directly
-	if verr := g.srv.TLSConfig.VerifyPeerCertificate(chain, nil); verr != nil {
-		out.VpcErr = verr.Error()
-	} else {
-		out.Vpc = true
-	}
-
-	// (b) a real connection
-	ccfg := &tls.Config{InsecureSkipVerify: true, MinVersion: tls.VersionTLS13} // nolint: gosec
+func (g *gateway) newClient(chain [][]byte, priv *ecdsa.PrivateKey, keepAlive bool, cache tls.ClientSessionCache) *client {
+	c := &client{g: g}
+	c.cfg = &tls.Config{InsecureSkipVerify: true, MinVersion: tls.VersionTLS13, ClientSessionCache: cache, ServerName: "gateway"} // nolint: gosec
 	if len(chain) > 0 {
-		ccfg.Certificates = []tls.Certificate{{Certificate: chain, PrivateKey: priv}}
+		c.cfg.Certificates = []tls.Certificate{{Certificate: chain, PrivateKey: priv}}
 	}
-	g.drain()
-	g.back.take()
+	c.tr = &http.Transport{TLSClientConfig: c.cfg, DisableKeepAlives: !keepAlive, MaxConnsPerHost: 1, DialContext: c.dial}
+	return c
+}
+
+func (c *client) dial(ctx context.Context, network, addr string) (net.Conn, error) {
+	var d net.Dialer
+	conn, err := d.DialContext(ctx, network, addr)
+	if err == nil {
+		c.mu.Lock()
+		c.last = conn.LocalAddr().String()
+		c.mu.Unlock()
+	}
+	return conn, err
+}
+
+func (c *client) close() { c.tr.CloseIdleConnections() }
+
+type result struct {
+	tls     bool
+	tlsErr  string
+	status  int
+	resumed bool
+	err     string // harness failure
+}
+
+// do performs one request; a transport failure is resolved by the server's own handshake error line.
+func (c *client) do(r request) (res result) {
 	var rerr error
-	if req.ws {
-		out.Status, rerr = g.doWS(ccfg, req)
+	if r.ws {
+		res.status, res.resumed, rerr = c.doWS(r)
 	} else {
-		out.Status, rerr = g.doHTTP(ccfg, req)
+		res.status, res.resumed, rerr = c.doHTTP(r)
 	}
 	if rerr == nil {
-		out.Tls = true
-	} else {
-		reason, ok := g.handshakeError(10 * time.Second)
-		if !ok {
-			out.Err = "request failed but the server reported no handshake error: " + rerr.Error()
-			return
-		}
-		out.TlsErr = reason
+		res.tls = true
+		return
 	}
-	for _, c := range g.back.take() {
-		out.Served = append(out.Served, w.project(c, g.provider))
+	c.mu.Lock()
+	from := c.last
+	c.mu.Unlock()
+	reason, ok := c.g.errs.wait(from, 15*time.Second)
+	if !ok {
+		res.err = "request failed but the server reported no handshake error: " + rerr.Error()
+		return
 	}
+	res.tlsErr = reason
 	return
 }
 
-func (g *gateway) doHTTP(ccfg *tls.Config, r request) (int, error) {
-	tr := &http.Transport{TLSClientConfig: ccfg, DisableKeepAlives: true}
-	defer tr.CloseIdleConnections()
-	cl := &http.Client{Transport: tr, Timeout: 20 * time.Second,
+func (c *client) doHTTP(r request) (int, bool, error) {
+	cl := &http.Client{Transport: c.tr, Timeout: 30 * time.Second,
 		CheckRedirect: func(*http.Request, []*http.Request) error { return http.ErrUseLastResponse }}
 	var body io.Reader
 	if r.body != "" {
 		body = strings.NewReader(r.body)
 	}
-	req, err := http.NewRequest(r.method, "https://"+g.addr+r.path, body)
+	req, err := http.NewRequest(r.method, "https://"+c.g.addr+r.path, body)
 	if err != nil {
-		return 0, err
+		return 0, false, err
 	}
 	req.Header.Set("Content-Type", "application/json; charset=UTF-8")
 	for k, v := range r.header {
@@ -240,34 +277,199 @@ func (g *gateway) doHTTP(ccfg *tls.Config, r request) (int, error) {
 	}
 	resp, err := cl.Do(req)
 	if err != nil {
-		return 0, err
+		return 0, false, err
 	}
 	_, _ = io.Copy(io.Discard, resp.Body)
 	_ = resp.Body.Close()
-	return resp.StatusCode, nil
+	return resp.StatusCode, resp.TLS != nil && resp.TLS.DidResume, nil
 }
 
-func (g *gateway) doWS(ccfg *tls.Config, r request) (int, error) {
-	d := websocket.Dialer{TLSClientConfig: ccfg, HandshakeTimeout: 20 * time.Second}
+func (c *client) doWS(r request) (int, bool, error) {
+	d := websocket.Dialer{TLSClientConfig: c.cfg, HandshakeTimeout: 30 * time.Second, NetDialContext: c.dial}
 	h := http.Header{}
 	for k, v := range r.header {
 		h.Set(k, v)
 	}
-	conn, resp, err := d.Dial("wss://"+g.addr+r.path, h)
+	conn, resp, err := d.Dial("wss://"+c.g.addr+r.path, h)
 	if err != nil {
 		if resp != nil { // the TLS layer let us in; the router answered with a plain HTTP status
-			return resp.StatusCode, nil
+			return resp.StatusCode, false, nil
 		}
-		return 0, err
+		return 0, false, err
 	}
 	defer conn.Close()
-	_ = conn.SetReadDeadline(time.Now().Add(20 * time.Second))
+	_ = conn.SetReadDeadline(time.Now().Add(30 * time.Second))
 	for {
 		if _, _, err := conn.ReadMessage(); err != nil {
 			break // the handler closes the stream once the (scripted) back end has answered
 		}
 	}
-	return resp.StatusCode, nil
+	return resp.StatusCode, false, nil
+}
+
+func decode(raw json.RawMessage) (In, rawIn, error) {
+	var in In
+	var ri rawIn
+	if err := json.Unmarshal(raw, &ri); err != nil {
+		return in, ri, err
+	}
+	dec := json.NewDecoder(bytes.NewReader(raw))
+	dec.DisallowUnknownFields()
+	if err := dec.Decode(&in); err != nil {
+		return in, ri, err
+	}
+	return in, ri, nil
+}
+
+// setup builds the world of a line: registry on chain, presented chain, its owners registered with the back end.
+func (g *gateway) setup(ch *chain, seed int64, in In) (*world, [][]byte, *ecdsa.PrivateKey, *collector, error) {
+	w, err := newWorld(seed, in.I)
+	if err != nil {
+		return nil, nil, nil, nil, err
+	}
+	w.noEdges = in.Kind == "session"
+	if err = w.publish(ch, in.Reg); err != nil {
+		return nil, nil, nil, nil, err
+	}
+	chain, priv, err := w.present(in.Cert)
+	if err != nil {
+		return nil, nil, nil, nil, err
+	}
+	col := g.back.register(w.X.String(), w.Y.String())
+	return w, chain, priv, col, nil
+}
+
+func (g *gateway) vpc(chain [][]byte, out *Out) {
+	if verr := g.srv.TLSConfig.VerifyPeerCertificate(chain, nil); verr != nil {
+		out.VpcErr = verr.Error()
+	} else {
+		out.Vpc = true
+	}
+}
+
+func (g *gateway) runCase(ch *chain, seed int64, in In, ri rawIn) (out Out) {
+	out = Out{Kind: "case", I: in.I, Cert: ri.Cert, Reg: ri.Reg, Path: ri.Path, Served: []Call{}}
+	w, chain, priv, col, err := g.setup(ch, seed, in)
+	if err != nil {
+		out.Err = err.Error()
+		return
+	}
+	defer g.back.unregister(col)
+	req, err := w.request(in.Path, g.provider)
+	if err != nil {
+		out.Err = err.Error()
+		return
+	}
+	out.URL = req.method + " " + req.path
+	g.vpc(chain, &out) // (a) the verification callback, directly
+	c := g.newClient(chain, priv, false, nil)
+	defer c.close()
+	res := c.do(req) // (b) a real connection
+	out.Tls, out.TlsErr, out.Status, out.Err = res.tls, res.tlsErr, res.status, res.err
+	for _, rc := range append(col.take(), g.back.takeOrphans()...) { // a gateway of its own: every call is this case's
+		out.Served = append(out.Served, w.project(rc, g.provider))
+	}
+	return
+}
+
+// runResume: connection 1 (full handshake, default request) with a client session cache; registry change;
+// connection 2 with the cached session, the certificate configured or not.
+func (g *gateway) runResume(ch *chain, seed int64, in In, ri rawIn) (out Out) {
+	out = Out{Kind: "resume", I: in.I, Cert: ri.Cert, Reg: ri.Reg, Path: ri.Path, Served: []Call{}, Change: in.Change, Present: in.Present}
+	w, chain, priv, col, err := g.setup(ch, seed, in)
+	if err != nil {
+		out.Err = err.Error()
+		return
+	}
+	defer g.back.unregister(col)
+	first, err := w.request(Path{Route: "lstatus", Dseq: "own", Gseq: "own", Oseq: "own", Extra: "none"}, g.provider)
+	if err != nil {
+		out.Err = err.Error()
+		return
+	}
+	req, err := w.request(in.Path, g.provider)
+	if err != nil {
+		out.Err = err.Error()
+		return
+	}
+	out.URL = req.method + " " + req.path
+	g.vpc(chain, &out)
+	cache := tls.NewLRUClientSessionCache(4)
+	c1 := g.newClient(chain, priv, false, cache)
+	r1 := c1.do(first)
+	c1.close()
+	if r1.err != "" {
+		out.Err = r1.err
+		return
+	}
+	out.Tls0 = &r1.tls
+	col.take()
+	g.back.takeOrphans()
+	switch in.Change {
+	case "none":
+	case "revoke":
+		if e, ok := in.Reg["X/s1"]; ok && e.State == "valid" {
+			if err := ch.Revoke(w.X, w.serials["s1"].String()); err != nil {
+				out.Err = err.Error()
+				return
+			}
+		}
+	default:
+		out.Err = "unknown change " + in.Change
+		return
+	}
+	var c2 *client
+	switch in.Present {
+	case "same":
+		c2 = g.newClient(chain, priv, false, cache)
+	case "nocert":
+		c2 = g.newClient(nil, nil, false, cache)
+	default:
+		out.Err = "unknown present " + in.Present
+		return
+	}
+	defer c2.close()
+	res := c2.do(req)
+	out.Tls, out.TlsErr, out.Status, out.Err, out.Resumed = res.tls, res.tlsErr, res.status, res.err, &res.resumed
+	for _, rc := range append(col.take(), g.back.takeOrphans()...) {
+		out.Served = append(out.Served, w.project(rc, g.provider))
+	}
+	return
+}
+
+// runSession: one client identity, a sequence of requests (HTTP requests share a keep-alive connection), on a
+// gateway shared with every other session. Back-end calls are attributed by the owner address they carry.
+func (g *gateway) runSession(ch *chain, seed int64, n int, in In, ri rawIn, emit func(Out)) {
+	fail := func(err error) {
+		emit(Out{Kind: "case", I: in.I, Cert: ri.Cert, Reg: ri.Reg, Served: []Call{}, Session: n, Err: err.Error()})
+	}
+	w, chain, priv, col, err := g.setup(ch, seed, in)
+	if err != nil {
+		fail(err)
+		return
+	}
+	defer g.back.unregister(col)
+	var probe Out
+	g.vpc(chain, &probe)
+	c := g.newClient(chain, priv, true, nil)
+	defer c.close()
+	for k, p := range in.Paths {
+		out := Out{Kind: "case", I: in.I + k, Cert: ri.Cert, Reg: ri.Reg, Path: ri.Paths[k], Served: []Call{}, Session: n,
+			Vpc: probe.Vpc, VpcErr: probe.VpcErr}
+		req, err := w.request(p, g.provider)
+		if err != nil {
+			out.Err = err.Error()
+			emit(out)
+			continue
+		}
+		out.URL = req.method + " " + req.path
+		res := c.do(req)
+		out.Tls, out.TlsErr, out.Status, out.Err = res.tls, res.tlsErr, res.status, res.err
+		for _, rc := range col.take() {
+			out.Served = append(out.Served, w.project(rc, g.provider))
+		}
+		emit(out)
+	}
 }
 
 // Main: vh gateway run -cases <ndjson> -out <ndjson> [-seed N] [-workers W]
@@ -277,18 +479,18 @@ func Main(args []string) int {
 		return 2
 	}
 	fs := flag.NewFlagSet("gateway", flag.ContinueOnError)
-	casesPath := fs.String("cases", "", "ndjson of abstract cases printed by TLC")
+	casesPath := fs.String("cases", "", "ndjson of abstract cases printed by TLC (kind, i added by the check)")
 	outPath := fs.String("out", "", "ndjson of recorded outcomes")
 	seed := fs.Int64("seed", 1, "seed of the concretisation")
-	workers := fs.Int("workers", runtime.NumCPU(), "parallel gateways")
+	workers := fs.Int("workers", runtime.NumCPU(), "parallel gateways / concurrent sessions")
 	if err := fs.Parse(args[1:]); err != nil || *casesPath == "" || *outPath == "" {
 		return 2
 	}
 	sdkutil.InitSDKConfig()
 
-	var cases []json.RawMessage
+	var lines []json.RawMessage
 	if err := vcommon.ReadLines(*casesPath, func(raw json.RawMessage) error {
-		cases = append(cases, append(json.RawMessage(nil), raw...))
+		lines = append(lines, append(json.RawMessage(nil), raw...))
 		return nil
 	}); err != nil {
 		fmt.Fprintln(os.Stderr, "gatewayh:", err)
@@ -307,50 +509,116 @@ func Main(args []string) int {
 	if *workers < 1 {
 		*workers = 1
 	}
-	if *workers > len(cases) {
-		*workers = len(cases)
-	}
 	t0 := time.Now()
-	jobs := make(chan int)
-	var wg sync.WaitGroup
 	var mu sync.Mutex
-	failed := 0
-	for n := 0; n < *workers; n++ {
-		g, err := newGateway(ch, n)
+	failed, written := 0, 0
+	emit := func(out Out) {
+		mu.Lock()
+		written++
+		if out.Err != "" {
+			failed++
+			if failed <= 5 {
+				fmt.Fprintf(os.Stderr, "gatewayh: line %d: %s\n", out.I, out.Err)
+			}
+		}
+		mu.Unlock()
+		if err := wr.Write(out); err != nil {
+			fmt.Fprintln(os.Stderr, "gatewayh:", err)
+		}
+	}
+
+	type job struct {
+		in In
+		ri rawIn
+	}
+	var single, sessions []job
+	for n, raw := range lines {
+		in, ri, err := decode(raw)
+		if err != nil {
+			fmt.Fprintf(os.Stderr, "gatewayh: input line %d: %v\n", n+1, err)
+			return 2
+		}
+		switch in.Kind {
+		case "case", "resume":
+			single = append(single, job{in, ri})
+		case "session":
+			sessions = append(sessions, job{in, ri})
+		default:
+			fmt.Fprintf(os.Stderr, "gatewayh: input line %d: unknown kind %q\n", n+1, in.Kind)
+			return 2
+		}
+	}
+
+	// phase 1: deterministic replay, one gateway per worker, one case at a time on each
+	if len(single) > 0 {
+		jobs := make(chan job)
+		var wg sync.WaitGroup
+		nw := *workers
+		if nw > len(single) {
+			nw = len(single)
+		}
+		for n := 0; n < nw; n++ {
+			g, err := newGateway(ch, n)
+			if err != nil {
+				fmt.Fprintln(os.Stderr, "gatewayh:", err)
+				return 2
+			}
+			wg.Add(1)
+			go func(g *gateway) {
+				defer wg.Done()
+				defer g.close()
+				for j := range jobs {
+					if j.in.Kind == "resume" {
+						emit(g.runResume(ch, *seed, j.in, j.ri))
+					} else {
+						emit(g.runCase(ch, *seed, j.in, j.ri))
+					}
+				}
+			}(g)
+		}
+		for _, j := range single {
+			jobs <- j
+		}
+		close(jobs)
+		wg.Wait()
+	}
+
+	// phase 2: free running, all sessions against ONE gateway, `workers` of them at any time
+	orphans := 0
+	if len(sessions) > 0 {
+		g, err := newGateway(ch, 1000)
 		if err != nil {
 			fmt.Fprintln(os.Stderr, "gatewayh:", err)
 			return 2
 		}
-		wg.Add(1)
-		go func(g *gateway) {
-			defer wg.Done()
-			defer g.close()
-			for idx := range jobs {
-				out := g.runCase(ch, *seed, idx+1, cases[idx])
-				if out.Err != "" {
-					mu.Lock()
-					failed++
-					if failed <= 5 {
-						fmt.Fprintf(os.Stderr, "gatewayh: case %d: %s\n", idx+1, out.Err)
-					}
-					mu.Unlock()
-				}
-				if err := wr.Write(out); err != nil {
-					fmt.Fprintln(os.Stderr, "gatewayh:", err)
-				}
-			}
-		}(g)
+		sem := make(chan struct{}, *workers)
+		var wg sync.WaitGroup
+		for n, j := range sessions {
+			wg.Add(1)
+			sem <- struct{}{}
+			go func(n int, j job) {
+				defer wg.Done()
+				defer func() { <-sem }()
+				g.runSession(ch, *seed, n+1, j.in, j.ri, emit)
+			}(n, j)
+		}
+		wg.Wait()
+		// calls nobody can account for (unknown owner, or arrived when their owner had no request in flight)
+		for _, rc := range g.back.takeOrphans() {
+			orphans++
+			w, _ := newWorld(*seed, 0)
+			// judged like a request nobody was accepted for: no certificate, empty registry
+			emit(Out{Kind: "case", I: -orphans, Cert: noCertJSON, Reg: emptyRegJSON, Path: defaultPathJSON,
+				Served: []Call{w.project(rc, g.provider)}, URL: "ORPHAN: a back-end call no session accounts for"})
+		}
+		g.close()
 	}
-	for i := range cases {
-		jobs <- i
-	}
-	close(jobs)
-	wg.Wait()
 	if err := wr.Close(); err != nil {
 		fmt.Fprintln(os.Stderr, "gatewayh:", err)
 		return 2
 	}
-	fmt.Fprintf(os.Stderr, "gatewayh: %d cases, %d harness failures, %d chain queries, %.1fs\n", len(cases), failed, ch.queries, time.Since(t0).Seconds())
+	fmt.Fprintf(os.Stderr, "gatewayh: %d lines in (%d sessions), %d lines out, %d harness failures, %d orphan calls, %d chain queries, %.1fs\n",
+		len(lines), len(sessions), written, failed, orphans, ch.queries, time.Since(t0).Seconds())
 	if failed > 0 {
 		return 2
 	}
